@@ -132,7 +132,7 @@ def run(opts):
     chk.distinct = len({json.dumps(s["blocks"]) for s in scripts})
     chk.rule = ("SCHEDULE inputs of up to 5 report steps / 14 keywords from a 19-keyword alphabet (WELSPECS, COMPDAT, WCONPROD, "
                 "WCONINJE, WCONHIST, WELOPEN on wells and connections, WELTARG, WEFAC, GEFAC, GRUPTREE, GCONPROD, WPIMULT, "
-                "WLIST, UDQ, TUNING, NEXTSTEP, RPTRST) generated by TLC simulation, plus shipped decks; every cut point, "
+                "WLIST, UDQ, TUNING, NEXTSTEP, RPTRST, WELPI, WTEST, WECON, WGRUPCON, COMPLUMP, GCONINJE) generated by TLC simulation, plus shipped decks; every cut point, "
                 "truncation and two different tails per input; evaluations = snapshots observed")
     for s in scripts[:2]:
         chk.sample({"blocks": s["blocks"][:4], "alts": [a["k"] for a in s["alts"]], "src": s.get("src")})
